@@ -190,7 +190,7 @@ def reference(ck, sc, tier, limit=None):
     return summary
 
 
-def standard(pid, tier, mc, weak, scen, notes=None, site_of=None, extra_scen=None):
+def standard(pid, tier, mc, weak, scen, notes=None, site_of=None, extra_scen=None, mc_expect_violation=()):
     ck = vlib.Check(pid, tier)
     ck.assumptions = [
         "field / curve / pairing arithmetic of dusk-bls12_381 and dusk-jubjub is trusted",
@@ -199,21 +199,54 @@ def standard(pid, tier, mc, weak, scen, notes=None, site_of=None, extra_scen=Non
         "same parametric construction; the real instance is tied to the same Components.tla by "
         "TraceComposer, not by proof",
     ]
-    for fam in mc:
-        mc_family(ck, fam, tier)
+    # ---- all model-checking and scenario-generation TLC runs of this check, concurrently
+    sfx = "_97" if tier == "thorough" else ""
+    jobs, kinds = [], []
+    for fam in list(mc) + list(mc_expect_violation):
+        cfg = "GadgetSearch_%s%s.cfg" % (fam, sfx)
+        jobs.append(dict(module="GadgetSearch", cfg=cfg, workers=4, timeout=3000, check_error=False, heap="8g"))
+        kinds.append(("mc", fam, cfg))
     for cfgname in weak:
-        res = vlib.tlc("GadgetSearch", cfg="GadgetSearch_%s.cfg" % cfgname, workers=6, timeout=900,
-                       check_error=False)
-        if not res.violated:
-            raise vlib.ToolError("anti-vacuity: weakened layout %s was not refuted by the search" % cfgname)
-        ck.add_tlc(res, "GadgetSearch/weak/" + cfgname, {"weakened": cfgname}, exhaustive=False)
-        ck.notes.append("anti-vacuity: GadgetSearch finds a counterexample on weakened layout '%s'" % cfgname)
-    all_sc = []
+        cfg = "GadgetSearch_%s.cfg" % cfgname
+        jobs.append(dict(module="GadgetSearch", cfg=cfg, workers=2, timeout=900, check_error=False, heap="4g"))
+        kinds.append(("weak", cfgname, cfg))
     for fam in scen:
-        sc = scenarios(ck, fam, tier)
-        for s in sc:
-            s["id"] = "%s-%s" % (fam, s["id"])
-        all_sc.extend(sc)
+        cfg = "ScenGadgets_%s_%s.cfg" % (fam, tier)
+        jobs.append(dict(module="ScenGadgets", cfg=cfg, workers=2, timeout=3000, heap="4g"))
+        kinds.append(("scen", fam, cfg))
+    results = vlib.tlc_many(jobs, max_parallel=8)
+    all_sc = []
+    for (kind, name, cfg), res in zip(kinds, results):
+        if kind == "mc":
+            if res.error and not res.violated:
+                raise vlib.ToolError("GadgetSearch %s failed:\n%s" % (cfg, res.out[-3000:]))
+            ck.add_tlc(res, "GadgetSearch/" + cfg, {"cfg": cfg}, exhaustive=not res.violated)
+            if name in mc_expect_violation:
+                if not res.violated:
+                    raise vlib.ToolError("GadgetSearch %s: the model was expected to exhibit a counterexample "
+                                         "(modelled finding) but none was found" % cfg)
+                ck.notes.append("model exhibits the modelled finding: GadgetSearch %s violates Sound" % cfg)
+            elif res.violated:
+                raise vlib.ToolError(
+                    "GadgetSearch %s: the SPECIFICATION's gadget violates its own relation in the toy "
+                    "instance (model defect or a genuine design flaw -- triage by hand):\n%s" % (cfg, res.out[-4000:]))
+            elif not res.finished:
+                raise vlib.ToolError("GadgetSearch %s did not finish:\n%s" % (cfg, res.out[-2000:]))
+        elif kind == "weak":
+            if not res.violated:
+                raise vlib.ToolError("anti-vacuity: weakened layout %s was not refuted by the search" % name)
+            ck.add_tlc(res, "GadgetSearch/weak/" + name, {"weakened": name}, exhaustive=False)
+            ck.notes.append("anti-vacuity: GadgetSearch finds a counterexample on weakened layout '%s'" % name)
+        else:
+            if res.violated:
+                raise vlib.ToolError("ScenGadgets %s: precondition on named points failed:\n%s" % (cfg, res.out[-2000:]))
+            sc = res.printed_json("SCEN")
+            if not sc:
+                raise vlib.ToolError("ScenGadgets %s produced no scenarios:\n%s" % (cfg, res.out[-2000:]))
+            ck.add_tlc(res, "ScenGadgets/" + cfg, {"family": name, "tier": tier})
+            for s in sc:
+                s["id"] = "%s-%s" % (name, s["id"])
+            all_sc.extend(sc)
     if extra_scen:
         all_sc.extend(extra_scen(ck, tier))
     run_scenarios(ck, all_sc, site_of)
@@ -227,6 +260,8 @@ def standard(pid, tier, mc, weak, scen, notes=None, site_of=None, extra_scen=Non
     return ck.finish(
         rule="MC: one state per partial assignment of the malicious-prover search (all satisfying "
              "assignments of the toy instance); MBT: one case per TLC-generated scenario (component, "
-             "width, input values at 255 bits) executed through compile/prove/verify and compared with "
+             "width, input values at 255 bits; honest inputs, adversarial programs / override maps, and "
+             "perturb-and-propagate variants) executed through compile/prove/verify and compared with "
              "the relation's prediction; distinct = distinct (component, parameters, inputs); TV: every "
-             "composer call of those programs matched against Components.tla")
+             "composer call of those programs matched against Components.tla; honest proofs also judged "
+             "by the specification-driven reference verifier")
